@@ -169,7 +169,7 @@ class SymmetricBandToeplitzOperator(AbstractLinearOperator):
         x_padding_start = overlap
         x_padding_end = total_length - overlap - l
         x_padded = jnp.pad(x, (x_padding_start, x_padding_end), mode='constant')
-        y = jnp.zeros(l + x_padding_end)
+        y = jnp.zeros(l + x_padding_end, dtype=jnp.result_type(x.dtype, band_values.dtype))
 
         def func(iblock, y):  # type: ignore[no-untyped-def]
             position = iblock * step_size
